@@ -388,7 +388,11 @@ pub fn run_reg_schedule(w: &crate::registry::RegWorld, choices: &[usize], spurio
       }
       // sizes make an unfilled (empty) source visible
       let sizes: Vec<String> = graph.modules().map(|m| format!("{}#{}", m.specifier(), match m { deno_graph::Module::Js(j) => j.source.text.len(), deno_graph::Module::Json(j) => j.source.text.len(), _ => 0 })).collect();
-      let shown = format!("writes={:?} events={:?} packages={:?} sizes={:?}", writes, events, pk, sizes);
+      // which loads were asked for (with which cache setting and checksum) does not depend on the order in
+      // which they complete; the order of the calls may
+      let mut asked: Vec<String> = loader.inner.log.borrow().iter().map(|c| format!("{} {} {}", c.specifier, c.cache_setting, c.checksum.clone().unwrap_or_default())).collect();
+      asked.sort();
+      let shown = format!("writes={:?} events={:?} packages={:?} sizes={:?} asked={:?}", writes, events, pk, sizes, asked);
       RunOutcome::Done { shown, json, errors }
     }
   };
@@ -434,6 +438,21 @@ fn many_versions_world(n: usize, cached_one: usize) -> crate::registry::RegWorld
 /// one package whose version manifest carries module-graph information for more modules than any
 /// plausible bound on simultaneously outstanding content loads; some of its files fail to load and
 /// are imported again, with import attributes, by modules visited late
+/// how two finished runs differ: in what the statement lists (an oracle failure), or only in which
+/// loads were asked for (the model proves the loader log schedule-independent: a correspondence failure)
+fn run_difference(shown: &str, ref_shown: &str, json: &str, ref_json: &str, errors: &[String], ref_errors: &[String]) -> Option<(&'static str, &'static str)> {
+  let split = |x: &str| -> (String, String) { x.rsplit_once(" asked=").map(|(a, b)| (a.to_string(), b.to_string())).unwrap_or((x.to_string(), String::new())) };
+  let (a, qa) = split(shown);
+  let (b, qb) = split(ref_shown);
+  if a != b || json != ref_json || errors != ref_errors {
+    Some(("oracle", "result-depends-on-completion-order"))
+  } else if qa != qb {
+    Some(("correspondence", "loads-asked-depend-on-completion-order"))
+  } else {
+    None
+  }
+}
+
 fn wide_package_world(rng: &mut Rng, n: usize) -> crate::registry::RegWorld {
   use crate::registry::*;
   use crate::world::Item;
@@ -523,10 +542,10 @@ fn registry_schedules(report: &mut Report, tier: &str, rng: &mut Rng) {
       report.evaluations += 1;
       match o {
         RunOutcome::Done { shown, json, errors } => {
-          if shown != s0 || json != j0 || errors != e0 {
+          if let Some((kind, shape)) = run_difference(&shown, &s0, &json, &j0, &errors, &e0) {
             report.fail(
-              "oracle",
-              "result-depends-on-completion-order",
+              kind,
+              shape,
               format!("wide package ({} outstanding loads at most), schedule {}: differs from the reference run\n  reference errors: {:?}\n  this run:         {:?}", max_open, r, e0, errors),
               json!({"registry_world": w.describe(), "schedule_kind": r % 3}),
             );
@@ -556,8 +575,8 @@ fn registry_schedules(report: &mut Report, tier: &str, rng: &mut Rng) {
       report.evaluations += 1;
       match o {
         RunOutcome::Done { shown, json, .. } => {
-          if shown != s0 || json != j0 {
-            report.fail("oracle", "result-differs-between-runs", format!("{} versions, 1.0.{} cached: run {} differs from the first run\n  first: {}\n  now:   {}", n, c, r, s0, shown), w.describe());
+          if let Some((kind, _)) = run_difference(&shown, &s0, &json, &j0, &[], &[]) {
+            report.fail(kind, if kind == "oracle" { "result-differs-between-runs" } else { "loads-asked-differ-between-runs" }, format!("{} versions, 1.0.{} cached: run {} differs from the first run\n  first: {}\n  now:   {}", n, c, r, s0, shown), w.describe());
             break;
           }
         }
@@ -628,11 +647,11 @@ fn registry_schedules(report: &mut Report, tier: &str, rng: &mut Rng) {
     report.nontrivial.insert(format!("reg{}-open{}", wi, max_open));
     let mut check = |outcome: RunOutcome, what: String, report: &mut Report| match outcome {
       RunOutcome::Done { shown, json, errors } => {
-        if shown != ref_shown || json != ref_json || errors != ref_errors {
-          let which = if json != ref_json { "serialised graph" } else if errors != ref_errors { "error entries" } else { "lockfile writes / resolution events / package table / source sizes" };
+        if let Some((kind, shape)) = run_difference(&shown, &ref_shown, &json, &ref_json, &errors, &ref_errors) {
+          let which = if json != ref_json { "serialised graph" } else if errors != ref_errors { "error entries" } else { "lockfile writes / resolution events / package table / source sizes / loads asked for" };
           report.fail(
-            "oracle",
-            "result-depends-on-completion-order",
+            kind,
+            shape,
             format!("registry world, {}: {} differ from the reference run\n  reference: {}\n  this run:  {}", what, which, ref_shown, shown),
             json!({"registry_world": w.describe(), "schedule": what, "reference_errors": ref_errors, "errors": errors}),
           );
